@@ -203,6 +203,21 @@ pub fn run_config(id: &str, c: &Value) -> Value {
     .unwrap_or_else(|_| panic_v());
     let mut v4h = Ipv4Header::new(0, 4, IpNumber(first), [1, 1, 1, 1], [2, 2, 2, 2]).unwrap();
     v4h.protocol = IpNumber(first);
+    let iph4c = IpHeaders::Ipv4(v4h.clone(), v4e.clone());
+    let iph4_next = match iph4c.next_header() {
+        Ok(n) => json!({"k": "ok", "e": "", "x": -1, "n": n.0}),
+        Err(err::ip_exts::ExtsWalkError::Ipv4Exts(err::ipv4_exts::ExtsWalkError::ExtNotReferenced { missing_ext })) => json!({"k": "err", "e": "ExtNotReferenced", "x": missing_ext.0, "n": -1}),
+        Err(_) => json!({"k": "err", "e": "Ipv6Exts", "x": -1, "n": -1}),
+    };
+    let iph4_write = catch_unwind(AssertUnwindSafe(|| {
+        let mut buf: Vec<u8> = vec![];
+        match iph4c.write(&mut buf) {
+            Ok(()) => json!({"k": "ok", "e": "", "x": -1, "n": buf.len()}),
+            Err(err::ip::HeadersWriteError::Ipv4Exts(err::ipv4_exts::ExtsWalkError::ExtNotReferenced { missing_ext })) => json!({"k": "err", "e": "ExtNotReferenced", "x": missing_ext.0, "n": -1}),
+            Err(_) => json!({"k": "io", "e": "", "x": -1, "n": -1}),
+        }
+    }))
+    .unwrap_or_else(|_| panic_v());
     let mut iph4 = IpHeaders::Ipv4(v4h.clone(), v4e.clone());
     let et4 = iph4.set_next_headers(IpNumber(17));
     let v4_first = match &iph4 {
@@ -215,5 +230,5 @@ pub fn run_config(id: &str, c: &Value) -> Value {
            "first": first, "next_header": nh, "write": wr, "header_len": hl, "decode": dec, "set": set,
            "iph_next": iph_next, "iph_write": iph_write, "iph_len": iph.header_len(),
            "iph_set": {"et": et6.0, "first": iph2_first, "net_et": net_et6},
-           "v4": {"next": v4_next, "write": v4_write, "len": v4e.header_len(), "set_et": et4.0, "set_first": v4_first, "net_et": net_et4}})
+           "v4": {"next": v4_next, "write": v4_write, "iph_next": iph4_next, "iph_write": iph4_write, "iph_len": iph4c.header_len(), "len": v4e.header_len(), "set_et": et4.0, "set_first": v4_first, "net_et": net_et4}})
 }
